@@ -400,7 +400,9 @@ def _parse_iso8601_duration(text: str, **options: str) -> Duration | None:
             if "." in _seconds:
                 _seconds, _microseconds = _seconds.split(".")
                 seconds += int(_seconds)
-                microseconds += int(f"{_microseconds[:6]:0<6}")
+                # Round to the microsecond
+                scale = 10 ** max(len(_microseconds) - 6, 0)
+                microseconds += (int(f"{_microseconds:0<6}") + scale // 2) // scale
             else:
                 seconds += int(_seconds)
 
